@@ -788,7 +788,7 @@ QUICK_N = 110000
 
 def select(calls, rng, tier, n=None):
     """thorough: the whole list.  quick: a small exhaustive core - for every (class, callable) its
-    first call (base receiver, base arguments) and eight seeded picks among its calls (all of them for groups of at most 40 calls and for Units) - plus a seeded
+    first call (base receiver, base arguments) and eight seeded picks among its calls (all of them for groups of at most 120 calls and for Units) - plus a seeded
     sample of n calls from the whole list.  The seed never reaches outside the list."""
     if tier == 'thorough':
         return calls
@@ -802,7 +802,7 @@ def select(calls, rng, tier, n=None):
     for key in sorted(groups):
         g = groups[key]
         chosen.add(g[0])
-        if key[0] == 'Units' or len(g) <= 40:       # small groups (all of Units: 935 calls) run completely
+        if key[0] == 'Units' or len(g) <= 120:      # small groups (all of Units: 935 calls) run completely
             chosen.update(g)
             continue
         for _ in range(8):
